@@ -16,6 +16,8 @@ import (
 	"fmt"
 	"os"
 	"path/filepath"
+	"runtime"
+	"runtime/debug"
 	"strings"
 
 	"verifharness/c01/encx"
@@ -40,6 +42,13 @@ type input struct {
 	Big     bool           `json:"big,omitempty"`
 	Sty     *encx.MStyle   `json:"sty,omitempty"`      // spec: how the manifest line is written (nil = Go's way)
 	Sender2 bool           `json:"sender2,omitempty"` // enc: the sender's vault also holds DecryptionKeyName, under another key
+	// Nested: the wrap / unwrap callbacks themselves run complete enc/v1 streams before answering (an
+	// envelope key store whose records are enc/v1 documents), on one P with the GC off
+	Nested bool `json:"nested,omitempty"`
+	// HeaderLen: enc - the key name that goes into the manifest (KeyName, or DecryptionKeyName when
+	// LongDec) is padded so that the three header lines are exactly this long
+	HeaderLen int  `json:"header_len,omitempty"`
+	LongDec   bool `json:"long_dec,omitempty"`
 }
 
 // recipient builds the recipient's vault for a document with manifest key name mk: the name
@@ -109,9 +118,54 @@ func cphName(o *encx.Opts) string {
 	return *o.Cipher
 }
 
+// padName: a key name such that the header of the document Encrypt makes for these options (with a
+// wrapped key of wfkLen bytes) is exactly `target` bytes long.
+func padName(o encx.Opts, wfkLen, target int) string {
+	hdr := func(name string) int {
+		m := encx.Manifest{K: name, Kw: algID[o.Alg], Wfk: make([]byte, wfkLen), Cph: cphID(o.Cipher), Np: make([]byte, 7)}
+		return len(encx.SpecHeader(make([]byte, 32), m.JSON()))
+	}
+	base := "key-"
+	n := target - hdr(base)
+	if n < 0 {
+		return base
+	}
+	return base + strings.Repeat("a", n)
+}
+
 func run(ctx *core.Ctx, in input) error {
 	r := hx.NewRand(in.Seed)
 	facts := map[string]any{"big": in.Big, "kind": in.Kind}
+	nestedBad := false
+	so := encx.SrcOpts{}
+	if in.Nested {
+		prev := runtime.GOMAXPROCS(1)
+		defer runtime.GOMAXPROCS(prev)
+		gc := debug.SetGCPercent(-1)
+		defer debug.SetGCPercent(gc)
+		nr := r.Fork()
+		nest := func() {
+			if !encx.NestedRoundTrip(nr) {
+				nestedBad = true
+			}
+		}
+		so.Nested = nest
+		encx.WrapNested = nest
+		defer func() { encx.WrapNested = nil }()
+		facts["nested"] = true
+		ctx.Sink.Count("callbacks=nested_streams")
+	}
+	if in.Kind == "enc" && in.HeaderLen > 0 {
+		o := *in.Opts
+		if in.LongDec {
+			o.DecKeyName = padName(o, in.WfkLen, in.HeaderLen)
+		} else {
+			o.KeyName = padName(o, in.WfkLen, in.HeaderLen)
+		}
+		in.Opts = &o
+		facts["header_len"] = in.HeaderLen
+		ctx.Sink.Count(fmt.Sprintf("enc/header_len=S%+d", in.HeaderLen-encx.S))
+	}
 	switch in.Kind {
 	case "enc":
 		p := in.P.Bytes()
@@ -137,6 +191,9 @@ func run(ctx *core.Ctx, in input) error {
 		}
 		if res.CallErr == nil && (!res.Known || (!res.HeaderOK && res.Status == "SClean")) {
 			c.Direct, c.Note = 1, "unclassified stream outcome or unparsable header"
+		}
+		if nestedBad {
+			c.Direct, c.Note = 2, "a stream run inside the wrap callback returned wrong data"
 		}
 		ctx.Sink.Count("kind=enc")
 		ctx.Sink.Count("enc/len=" + encx.LenClass(len(p)))
@@ -170,7 +227,8 @@ func run(ctx *core.Ctx, in input) error {
 		// keys under every other name in play
 		rv := recipient(in.Dec, m.K, in.OptKn, []string{in.Opts.KeyName, in.Opts.DecKeyName}, kek, r)
 		tbl := table(in.Dec, rv, m, in.OptKn)
-		dres := encx.RunDecrypt(res.Doc, sc2, tbl, in.OptKn, r.Fork())
+		dres := encx.RunDecryptSrc(res.Doc, sc2, tbl, in.OptKn, r.Fork(), so)
+		dres.NestedBad = nestedBad
 		var docsrc string
 		if len(res.Doc) <= 600 {
 			docsrc = "(DBytes " + hx.CoqBytes(res.Doc) + ")"
@@ -202,7 +260,8 @@ func run(ctx *core.Ctx, in input) error {
 			}
 			sc = genScript(r, len(doc), in.Style2, maxItems)
 		}
-		dres := encx.RunDecrypt(doc, sc, tbl, in.OptKn, r.Fork())
+		dres := encx.RunDecryptSrc(doc, sc, tbl, in.OptKn, r.Fork(), so)
+		dres.NestedBad = nestedBad
 		d := sha256.Sum256(doc)
 		docsrc := fmt.Sprintf("(DSpec %s %s %s %s %d %s)", sty.Coq(), in.M.Coq(), hx.CoqBytes(in.Fk), in.P.Coq(), len(doc), hx.CoqBytes(d[:]))
 		facts["style"] = sty.Name()
@@ -257,10 +316,13 @@ func addDec(ctx *core.Ctx, in input, kind, docsrc string, m encx.Manifest, tbl e
 	c.Class = fmt.Sprintf("%s/%s/%s/%s/%s-%s/%s/%s", kind, encx.LenClass(plen), encx.CphNames[m.Cph], encx.KwNames[m.Kw],
 		kn, ov, mode, sc.Shape())
 	c.Observed = map[string]any{"call_error": dres.CallErr != nil, "out_len": len(dres.Out), "status": dres.Status}
-	c.Coq = fmt.Sprintf("CDec %s %s %s %s %s %s %s", docsrc, tbl.Coq(), hx.CoqString(in.OptKn), sc.Coq(), hx.CoqBytes(fk),
+	c.Coq = fmt.Sprintf("CDec %s %s %s %s %s %s %s", docsrc, tbl.Coq(), encx.CoqName(in.OptKn), sc.Coq(), hx.CoqBytes(fk),
 		in.P.Coq(), dres.CoqObs())
 	if !dres.Known {
 		c.Direct, c.Note = 1, "unclassified stream outcome"
+	}
+	if dres.NestedBad {
+		c.Direct, c.Note = 2, "a stream run inside the unwrap callback returned wrong data"
 	}
 	ctx.Sink.Count("kind=" + kind)
 	ctx.Sink.Count("dec/len=" + encx.LenClass(plen))
@@ -523,6 +585,57 @@ func gen(ctx *core.Ctx) {
 		in.Style2 = 5 + i%2
 		must(in)
 	}
+	// 4d. callbacks that themselves use the package: the wrap and unwrap callbacks run a complete nested
+	// Decrypt and an Encrypt+Decrypt before answering; the outer document arrives in one read (payload
+	// bytes together with the end of the header) or in pieces
+	for i := 0; i < 12*mult; i++ {
+		cph := ciphers()[1+i%2]
+		o := genOpts(r, algs[r.Intn(len(algs))], cph, r.Intn(2))
+		n := []int{1, 17, 300, 3000}[i%4]
+		in := input{Kind: "enc", Opts: &o, P: encx.GenPlain(r, n), Script: encx.GenItems(r, n, styles[r.Intn(4)], 1+r.Intn(n+1), 16),
+			Style2: styles[r.Intn(4)], Dec: "right", WfkLen: wfkLen(r, o.Alg), Seed: r.U64(), Nested: true}
+		if i%2 == 0 {
+			in.Script2 = encx.SItems{{K: "de", N: 1 << 20}}
+		}
+		must(in)
+		sp := specInput(r, o, n, "", "right", false)
+		sp.Nested = true
+		if i%2 == 1 {
+			sp.Script = encx.SItems{{K: "d", N: 1 << 20}}
+		}
+		must(sp)
+	}
+	// 4e. key names at the limit of the header size: the three header lines exactly S-1, S (both must
+	// round-trip), S+1, S+2 bytes long (Encrypt must refuse: Decrypt looks for the header in the first S
+	// bytes only), through KeyName or DecryptionKeyName, with 32-, 40- and 256-byte wrapped keys
+	// quick: S and S+1 for one configuration and S-1, S+2 for another, chosen by the seed (4 documents
+	// of 64 KiB); thorough: all 24
+	type hcfg struct {
+		long bool
+		alg  string
+	}
+	var hcfgs []hcfg
+	for _, long := range []bool{false, true} {
+		for _, alg := range []string{"A128CBC-NOPAD", "AES", "RSA"} {
+			hcfgs = append(hcfgs, hcfg{long, alg})
+		}
+	}
+	for ci, hc := range hcfgs {
+		for _, d := range []int{0, 1, -1, 2} {
+			if !ctx.Thorough {
+				first := ci == int(ctx.Seed)%6 && (d == 0 || d == 1)
+				second := ci == (int(ctx.Seed)+3)%6 && (d == -1 || d == 2)
+				if !first && !second {
+					continue
+				}
+			}
+			o := genOpts(r, hc.alg, ciphers()[1+(ci+d+1)%2], 0)
+			o.KeyName = "kn"
+			must(input{Kind: "enc", Opts: &o, P: encx.GenPlain(r, r.Range(0, 40)), Script: encx.SItems{{K: "de", N: 64}},
+				Style2: styles[r.Intn(4)], Dec: "right", WfkLen: wfkLen(r, hc.alg), Seed: r.U64(), Big: true,
+				HeaderLen: encx.S + d, LongDec: hc.long})
+		}
+	}
 	// 5. the stored documents of the repository's tests
 	files := []struct {
 		name  string
@@ -578,6 +691,22 @@ func gen(ctx *core.Ctx) {
 				in.Style2 = styles[(i+1+ci)%4]
 				must(in)
 			}
+		}
+	}
+	// a plaintext source that fails exactly at a multiple of the segment size (and one byte later),
+	// the error alone on the look-ahead read or together with the last bytes
+	fmodes := []string{"", "data_sticky", "data_once_eof"}
+	for i, n := range []int{S, 2 * S, S + 1} {
+		if !ctx.Thorough && (i+int(ctx.Seed))%3 != 0 {
+			continue
+		}
+		for mi, fm := range fmodes {
+			if !ctx.Thorough && mi != (i+int(ctx.Seed)/3)%3 {
+				continue
+			}
+			o := genOpts(r, "AES", ciphers()[1+(i+mi)%2], 0)
+			sc := encx.WithError(encx.GenItems(r, n, 0, 70000, 6), fm, 0)
+			must(input{Kind: "enc", Opts: &o, P: encx.PSeq(r.Intn(256), n), Script: sc, WfkLen: 40, Seed: r.U64(), Big: true})
 		}
 	}
 	if ctx.Thorough {
